@@ -10,9 +10,16 @@ for d in sorted(glob.glob(os.path.join(HERE, "seeded", "C*-*m[0-9]"))):
     if not os.path.exists(ev):
         continue
     txt = open(ev).read()
-    demo_clean = re.search(r"demo clean rc=(\d+)", txt)
-    demo_patched = re.search(r"demo patched rc=(\d+)", txt)
-    suite = re.search(r"suite: (.*)", txt)
+    fp_path = os.path.join(d, "eval_first_pass.txt")
+    fptxt = open(fp_path).read() if os.path.exists(fp_path) else ""
+    demo_clean = re.search(r"demo clean rc=(\d+)", txt) or re.search(r"demo clean rc=(\d+)", fptxt)
+    demo_patched = re.search(r"demo patched rc=(\d+)", txt) or re.search(r"demo patched rc=(\d+)", fptxt)
+    suite = re.search(r"suite: (.*)", txt) or re.search(r"suite: (.*)", fptxt)
+    first = None
+    if fptxt and len(re.findall(r"^C\d+ rc=", fptxt, re.M)) == 20:
+        fc = [m.group(1) for m in re.finditer(r"^(C\d+) rc=1 ", fptxt, re.M)]
+        first = {"caught_by": fc, "caught_by_target_check": mid.split("-")[0] in fc}
+    judged = open(os.path.join(d, "judgement.txt")).read().strip() if os.path.exists(os.path.join(d, "judgement.txt")) else None
     caught = {}
     for m in re.finditer(r"^(C\d+) rc=(\d+) violations=(\d+) ?(.*)$", txt, re.M):
         if m.group(2) == "1":
@@ -41,7 +48,8 @@ for d in sorted(glob.glob(os.path.join(HERE, "seeded", "C*-*m[0-9]"))):
         "caught_by_quick_tier": caught,
         "caught_by_target_check": target in caught,
         "caught_by_thorough_tier_only": thorough,
-        "first_pass_before_strengthening": old.get("first_pass_before_strengthening"),
+        "first_pass_before_strengthening": first if first is not None else old.get("first_pass_before_strengthening"),
+        "judgement": judged,
     }
     json.dump(meta, open(mp, "w"), indent=1)
     rows.append(meta)
@@ -58,4 +66,18 @@ with open(os.path.join(HERE, "seeded", "MATRIX.md"), "w") as f:
     a = sum(1 for r in rows if r["caught_by_quick_tier"])
     f.write(f"\n{n} changes; {t} caught by the target property's check; {a} caught by at least one check; "
             f"missed by every quick check: {[r['id'] for r in rows if not r['caught_by_quick_tier']]}\n")
+    f.write("\n## Per round\n\n| round | changes | first pass: target check | first pass: some check | now: target check | now: some check |\n|---|---|---|---|---|---|\n")
+    for tag, name in (("-m", "1"), ("-r2m", "2"), ("-r3m", "3"), ("-r4m", "4")):
+        rr = [r for r in rows if re.search(re.escape(tag) + r"\d$", r["id"]) and (tag != "-m" or re.search(r"^C\d+-m\d$", r["id"]))]
+        if not rr:
+            continue
+        fp = [r for r in rr if isinstance(r.get("first_pass_before_strengthening"), dict)]
+        ft = sum(1 for r in fp if r["first_pass_before_strengthening"].get("caught_by_target_check"))
+        fa = sum(1 for r in fp if r["first_pass_before_strengthening"].get("caught_by"))
+        f.write(f"| {name} | {len(rr)} | {ft}/{len(fp)} | {fa}/{len(fp)} | {sum(1 for r in rr if r['caught_by_target_check'])}/{len(rr)} | {sum(1 for r in rr if r['caught_by_quick_tier'])}/{len(rr)} |\n")
+    jud = [r for r in rows if r.get("judgement")]
+    if jud:
+        f.write("\n## Changes judged not to violate the property as stated (never made a known finding, never the reason for loosening a check)\n\n")
+        for r in jud:
+            f.write(f"* `{r['id']}`: {r['judgement']}\n")
 print(open(os.path.join(HERE, "seeded", "MATRIX.md")).read()[-600:])
